@@ -6,6 +6,7 @@ import (
 	"os"
 
 	"semaverif/fw"
+	"semaverif/httpx"
 	_ "semaverif/props"
 )
 
@@ -17,6 +18,8 @@ func main() {
 	switch os.Args[1] {
 	case "worker":
 		os.Exit(fw.WorkerMain(os.Args[2], os.Args[3]))
+	case "node":
+		os.Exit(httpx.NodeMain(os.Args[2:]))
 	case "list":
 		for _, id := range fw.IDs() {
 			fmt.Println(id)
